@@ -61,6 +61,13 @@ def corpus_histories():
     many = [{"kind": "register", "wkind": "CommonNoun" if i % 3 else "ProperNoun", "reading": "くるま", "word": f"来留間{i}"} for i in range(40)]
     items.append((base, many + [{"kind": "convert", "input": "くるま", "context": "Normal", "expect": f"来留間{i}"} for i in (0, 1, 29, 30, 31, 32, 33, 39)]
                         + [{"kind": "convert", "input": "くるま", "context": "Normal", "expect": "車"}]))
+    # the same registrations travelling as ONE JSON-RPC batch (an array in one HTTP request): the updater finds several entries waiting at once
+    items.append((base, [dict(q, batch=1) for q in many] + [{"kind": "convert", "input": "くるま", "context": "Normal", "expect": f"来留間{i}"} for i in (0, 1, 2, 29, 38, 39)]))
+    for r, ws in (("あたらしい", ["新井", "荒井", "新居"]), ("くるま", ["俥", "來間"]), ("でで", ["出々", "出出", "弟々", "弟弟"])):
+        items.append((base, [{"kind": "register", "wkind": "CommonNoun", "reading": r, "word": w, "batch": 1} for w in ws] +
+                            [{"kind": "convert", "input": r, "context": "Normal", "expect": w} for w in ws]))
+    items.append((base, [{"kind": "register", "wkind": "Guess", "reading": r, "word": w, "batch": 1} for r, w in (("かかない", "書かない"), ("かかない", "掻かない"), ("かかない", "欠かない"))] +
+                        [{"kind": "convert", "input": fr, "context": "Normal", "expect": fw} for fr, fw in (("かき", "書き"), ("かき", "掻き"), ("かき", "欠き"), ("かく", "掻く"), ("かい", "欠い"))]))
     # a word for a reading that was converted just before and is converted again right after (homophone of an existing reading, and a new reading)
     for r, w in (("くるま", "俥"), ("くるまで", "車出"), ("で", "出")):
         items.append((base, [{"kind": "convert", "input": r, "context": "Normal"}, {"kind": "register", "wkind": "CommonNoun", "reading": r, "word": w},
